@@ -70,6 +70,9 @@ def wf_document(case, rnd):
             body = '<rect wh="2"/>'
         else:
             body = f'<config background="{a}"/><rect wh="2"/>'
+    elif src == "root-attr":
+        # attributes of the root element itself (rewritten when the root is synthesised)
+        return f'<svg data-x="{a}" style="{a}" class="{a}"><rect wh="2"/></svg>', cfg
     elif src == "g-attr":
         body = f'<g data-x="{a}"><rect wh="2"/></g>'
     elif src == "reuse-attr":
